@@ -19,6 +19,7 @@ import (
 	"sort"
 	"strconv"
 	"strings"
+	"time"
 
 	"github.com/cube2222/octosql/octosql"
 	"github.com/cube2222/octosql/optimizer"
@@ -235,6 +236,33 @@ func genC04(g *Gen, tier string, w *bufio.Writer) {
 			}
 		}
 	}
+	// event-time queries (outside the Lean fragment): the optimized run against the unoptimized run of the real binary
+	for r := 0; r < rounds; r++ {
+		w1 := jtable04{file: "w1.csv", cols: []qcol{{name: "k", kind: 'i'}, {name: "ts", kind: 'T'}, {name: "seen", kind: 'T'}, {name: "a", kind: 'i', nullable: true}}}
+		base := time.Date(2021, 1, 1, 0, 0, 0, 0, time.UTC)
+		nrows := 3 + g.Intn(8)
+		at := 0
+		for i := 0; i < nrows; i++ {
+			at += g.Intn(3)
+			a := octosql.NewInt(int64(g.Intn(5)))
+			if g.Chance(1, 4) {
+				a = octosql.NewNull()
+			}
+			w1.rows = append(w1.rows, []octosql.Value{octosql.NewInt(int64(i + 1)), octosql.NewString(base.Add(time.Duration(at) * time.Second).Format(time.RFC3339)),
+				octosql.NewString(base.Add(time.Duration(60*(nrows-i)+g.Intn(50)) * time.Second).Format(time.RFC3339)), a})
+		}
+		mdw := "max_diff_watermark(source=>TABLE(w1.csv), max_diff=>INTERVAL 1 SECOND, time_field=>DESCRIPTOR(ts))"
+		for _, sql := range []string{
+			"SELECT COUNT(*) AS c, SUM(x.a) AS s FROM tumble(source=>TABLE(" + mdw + " w), window_length=>INTERVAL 2 SECONDS) x GROUP BY x.window_end",
+			"SELECT COUNT(*) AS c, SUM(x.k) AS s FROM tumble(source=>TABLE(" + mdw + " w), window_length=>INTERVAL 2 SECONDS) x GROUP BY x.window_end",
+			"SELECT COUNT(*) AS c, SUM(x.a) AS s FROM tumble(source=>TABLE(" + mdw + " w), window_length=>INTERVAL 3 SECONDS, time_field=>DESCRIPTOR(ts)) x GROUP BY x.window_end",
+			"SELECT COUNT(x.seen) AS c, SUM(x.a) AS s FROM tumble(source=>TABLE(" + mdw + " w), window_length=>INTERVAL 2 SECONDS) x GROUP BY x.window_end TRIGGER ON WATERMARK",
+			"SELECT x.a AS c, x.k AS s FROM " + mdw + " x WHERE x.a IS NOT NULL",
+			"SELECT x.a AS c, x.a AS s FROM " + mdw + " x",
+		} {
+			fmt.Fprintf(w, "optx %s ii @TABLES %s @SQL %s\n", Pick(g, []string{"json", "csv"}), encodeTables([]jtable04{w1}), hex.EncodeToString([]byte(sql)))
+		}
+	}
 	emitted := 0
 	every := (nplan + nq) / nq // the (slow) behavioural ops are spread evenly over the output
 	for i := 0; emitted < nplan+nq && i < 20*(nplan+nq); i++ {
@@ -317,6 +345,21 @@ func driveC04(toks []string) string {
 		a := canonOutput(runOctosql(dir, nil, string(b), "-o", mode, "--optimize=false"), mode, kinds)
 		o := canonOutput(runOctosql(dir, nil, string(b), "-o", mode), mode, kinds)
 		return "A " + sortCanonRows(a) + " B " + sortCanonRows(o)
+	case "optx":
+		mode, kinds := toks[1], toks[2]
+		tables, rest := parseJTables(afterMarker(toks, "@TABLES"))
+		b, _ := hex.DecodeString(afterMarker(rest, "@SQL")[0])
+		dir := scratchDir("c04x")
+		defer os.RemoveAll(dir)
+		for _, t := range tables {
+			t.write(dir)
+		}
+		a := sortCanonRows(canonOutput(runOctosql(dir, nil, string(b), "-o", mode, "--optimize=false"), mode, kinds))
+		o := sortCanonRows(canonOutput(runOctosql(dir, nil, string(b), "-o", mode), mode, kinds))
+		if a == o {
+			return "same"
+		}
+		return "differ A " + a + " B " + o
 	case "raw":
 		p := &planParser{toks: toks[1:]}
 		n := p.node()
